@@ -59,6 +59,9 @@ def instances(tier):
             out.append({"kind": "turns", "gen": g, "k": 2 if tier == "quick" else 3, "anchor": anchor, "span": 10 if tier == "quick" else 8})
         # three messages are held; another one is sent while their flush is held up in drain(): it goes out behind them
         out.append({"kind": "turns", "gen": g, "k": 1, "anchor": "write_bp", "span": 10, "held": 3})
+    # a slow console: the transport stalls for up to 25 s on a write (no fault): the command is still transmitted exactly once
+    for g in (4, 5):
+        out.append({"kind": "long_stall", "gen": g})
     # an unencodable message among the held ones does not keep the others from going out
     for g in (4, 5):
         out.append({"kind": "held_unencodable", "gen": g})
@@ -85,7 +88,39 @@ def run(ctx, p):
         return _turns(ctx, p)
     if k == "held_unencodable":
         return _held_unencodable(ctx, p)
+    if k == "long_stall":
+        return _long_stall(ctx, p)
     return _sends(ctx, p)
+
+
+def _long_stall(ctx, p):
+    g = Gen(p["gen"])
+    S = socket_mod()
+    cat = catalog.catalog(g)
+    stall = ctx.real("stall", 0, 25, lo_strict=True)
+    res = {}
+    with Rig(ctx, g) as rig:
+        rig.net.on_drain = lambda conn, n: (stall if n == 1 else None)
+
+        async def go():
+            try:
+                await rig.sock.send(cat[3][1](1), S.RetryPolicy(max_retries=2, max_lifetime=30.0))
+                res["r"] = "ok"
+            except Exception as e:  # noqa: BLE001
+                res["r"] = type(e).__name__
+
+        rig.spawn(rig.sock.open_socket())
+        rig.loop.vt_call_at(0.5, lambda: rig.spawn(go()))
+        rig.loop.vt_run(40.25)
+        wire = [b for c in rig.net.conns for b in c.written()]
+        exp = catalog.ref_frame(g.n, cat[3], 1, 0)
+        detail = {"result": res.get("r"), "conns": len(rig.net.conns), "wire_len": len(wire), "expected_len": len(exp)}
+        ctx.observe("conns", len(rig.net.conns))
+        ctx.check(res.get("r") == "ok", "sends.accepted", detail=detail)
+        ctx.check(bytes(wire) == bytes(exp) and len(rig.net.conns) == 1, "sends.wire", detail=detail)
+        ctx.check(not rig.task_failures(), "sends.wire", detail="unhandled exception in a socket task")
+    for lab in ("counter.step", "counter.wrap", "sends.contiguous"):
+        ctx.reach(lab)
 
 
 def _held_unencodable(ctx, p):
